@@ -61,8 +61,8 @@ type Spec struct {
 	DeadlineT int
 }
 
-var allCfg = []string{"default", "noasm", "force32bit", "appengine", "noasm+appengine", "force32bit+appengine", "386"}
-var layoutCfg = []string{"default", "force32bit", "386"}
+var allCfg = []string{"default", "noasm", "force32bit", "appengine", "noasm+appengine", "force32bit+appengine", "386", "386+force64bit"}
+var layoutCfg = []string{"default", "force32bit", "386", "386+force64bit"}
 var def = []string{"default"}
 
 type workerResult struct {
@@ -152,7 +152,7 @@ func findSpec(id string) *Spec {
 func goEnv(cfg string) []string {
 	env := os.Environ()
 	env = append(env, "GOFLAGS=-mod=mod", "GOPROXY=off", "GOSUMDB=off", "GOTOOLCHAIN=local", "CGO_ENABLED=0")
-	if cfg == "386" {
+	if strings.HasPrefix(cfg, "386") {
 		env = append(env, "GOARCH=386")
 	}
 	return env
@@ -160,8 +160,10 @@ func goEnv(cfg string) []string {
 
 func cfgTags(cfg string) string {
 	tags := []string{"verif"}
-	if cfg != "default" && cfg != "386" {
-		tags = append(tags, strings.Split(cfg, "+")...)
+	for _, t := range strings.Split(cfg, "+") {
+		if t != "default" && t != "386" {
+			tags = append(tags, t)
+		}
 	}
 	return strings.Join(tags, ",")
 }
